@@ -126,6 +126,42 @@ def check_fold(ctx):
     ctx.require(found, "C14-a", cinit, "Combine getter not recognised")
 
 
+ALLOWED_FOREIGN_ATTRS = {"getter", "var_context", "name"}
+
+
+def check_black_box(ctx):
+    """Compose/Combine treat each argument variable as a black box: the only
+    attributes read from an object other than self are getter, var_context and
+    name.  Reaching into a variable's private parts (arg._vars) would make a
+    Combine inside a Compose behave differently from the same Combine in a Sequence."""
+    n = 0
+    for qual in ("Compose.__init__", "Combine.__init__"):
+        fn = ctx.tree.func(VAR, qual)
+        for x in ast.walk(fn):
+            attr = base = None
+            if isinstance(x, ast.Attribute) and isinstance(x.ctx, ast.Load):
+                attr, base = x.attr, x.value
+            elif isinstance(x, ast.Call) and A.call_name(x) in ("getattr", "hasattr") and len(x.args) >= 2 \
+                    and isinstance(x.args[1], ast.Constant) and isinstance(x.args[1].value, str):
+                attr, base = x.args[1].value, x.args[0]
+            if attr is None:
+                continue
+            root = A.root_name(base) if isinstance(base, (ast.Name, ast.Attribute, ast.Subscript)) else None
+            if root in (None, "self", "lena", "copy", "object", "Variable", "kwargs", "var_context", "compose", "super"):
+                continue
+            if isinstance(base, ast.Call):
+                continue
+            t = ctx.res.resolve(base) if isinstance(base, (ast.Name, ast.Attribute)) else None
+            if t is not None and t.kind in ("module", "ext", "def", "builtin"):
+                continue
+            n += 1
+            ctx.check("C14-a", attr in ALLOWED_FOREIGN_ATTRS or not attr.startswith("_"), x,
+                      "%s reads the private attribute %r of an argument variable (`%s`): composition must use only the "
+                      "variable's getter and var_context, otherwise a Combine or Compose given as an argument is taken apart"
+                      % (qual, attr, A.short(x, 60)), detail="%s reads .%s of an argument variable" % (qual, attr))
+    ctx.instances_floor("C14-a/black-box", n, 3, "attribute reads on argument variables in Compose/Combine constructors")
+
+
 def is_fresh_var_context(ctx, arg, call):
     """arg is copy.deepcopy(<x>.var_context), directly or through a local
     assigned in the same (innermost) loop body / function body."""
@@ -312,6 +348,7 @@ def check_constructors(ctx):
 
 
 def check(ctx):
+    check_black_box(ctx)
     check_fold(ctx)
     check_fresh(ctx)
     check_locality(ctx)
